@@ -272,3 +272,42 @@ func sortStrings(a []string) {
 		}
 	}
 }
+
+// GenCMapMisuse draws a CMap-like file that drives the CIDInit operators with
+// operands of the wrong type or shape (including composite objects that hold
+// pointers): the reader must reject them with an error whose text, too, is the
+// same on every run.
+func GenCMapMisuse(t *sim.Tape) []byte {
+	var sb strings.Builder
+	sb.WriteString("/CIDInit /ProcSet findresource begin\n12 dict begin\nbegincmap\n/CMapName /Odd def\n1 begincodespacerange <00> <ff> endcodespacerange\n")
+	if t.Bool(1, 2) {
+		sb.WriteString("endcmap\nbegincmap\n") // a finished block: currentdict now has a CodeMap
+	}
+	operands := []string{"<01>", "5", "(str)", "/name", "1.5", "true", "[ 1 2 ]", "[ currentdict ]", "[ currentdict /CodeMap known { currentdict /CodeMap get } if ]",
+		"currentdict", "{ 1 }", "mark", "currentfile", "<0102>", "[ [ <00> ] ]", "<< /a [ currentdict ] >>"}
+	ops := []struct {
+		name string
+		n    int
+	}{{"cidchar", 2}, {"cidrange", 3}, {"bfchar", 2}, {"bfrange", 3}, {"notdefchar", 2}, {"notdefrange", 3}, {"codespacerange", 2}}
+	for i := 1 + t.Choose(3); i > 0; i-- {
+		op := ops[t.Choose(len(ops))]
+		cnt := 1 + t.Choose(2)
+		if t.Bool(1, 8) {
+			cnt = []int{0, 101, -1}[t.Choose(3)]
+		}
+		fmt.Fprintf(&sb, "%d begin%s\n", cnt, op.name)
+		for j := 0; j < max(cnt, 0)*op.n && j < 8; j++ {
+			if t.Bool(1, 3) {
+				sb.WriteString(operands[t.Choose(len(operands))] + " ")
+			} else {
+				sb.WriteString([]string{"<01>", "<05>", "7", "<0041>"}[t.Choose(4)] + " ")
+			}
+		}
+		fmt.Fprintf(&sb, "\nend%s\n", op.name)
+	}
+	if t.Bool(1, 2) {
+		sb.WriteString("[ currentdict ] usecmap\n")
+	}
+	sb.WriteString("endcmap\nCMapName currentdict /CMap defineresource pop\nend\nend\n")
+	return []byte(sb.String())
+}
